@@ -103,14 +103,14 @@ PROPS = {
         explanation=("vm::run is verified by Verus for every well-formed program, every text and every start offset on a char boundary: every index, slice (&s[lo..hi] in Backref included), "
                      "unwrap, subtraction and addition in all 21 instruction arms is in bounds / on a character boundary / overflow-free; the reported overall span satisfies start <= end <= len with both ends on boundaries; "
                      "the only errors are StackOverflow and BacktrackLimitExceeded. The UTF-8 stepping helpers, Match::as_str, Captures::get (no index overflow), Split::next / SplitN::next slicing are verified in their units."),
-        residual=("Flow assumptions A1-A5 inside run (listed) and prog_wf as precondition; start <= end for groups >= 1 is not proved (only that each slot is unset or a boundary <= len); "
+        residual=("Flow assumptions A1-A5 inside run (listed); start <= end for groups >= 1 is not proved (only that each slot is unset or a boundary <= len); "
                   "try_replacen is covered only by the bounded `search` family; the parser/compiler side is C06."),
         assumptions=[T_VSTD, T_ARITH, T_EXTRACT, "A1 (assume in run, EndAtomic): the explicit stack is non-empty and its top is <= the number of pending alternatives",
                      "A2 (assume in run, FailNegativeLookAround): an alternative resuming at pc+1 is pending",
                      "A3 (assume / precondition): iteration counters and the backtrack counter stay below 2^64 - 1 (backtrack_limit < usize::MAX)",
                      "A4 (assume in run, End): slots 0 and 1 have been set when End is reached",
                      "A5 (assume in run, Restore): the restored slot has been set",
-                     "prog_wf(prog): static well-formedness of the program (jump targets, slot indices, counter / position slot typing) is a PRECONDITION of run; U-COMPILE covers the functions that emit code; bounded support: replay family progwf evaluates prog_wf on real compiled programs",
+                     "prog_wf(prog): static well-formedness of the program (jump targets, slot indices, counter / position slot typing) is a PRECONDITION of run and the POSTCONDITION of compile proved in U-EMITWF (one text, progwf_spec.vrs); it travels through Regex::wf, which U-NEW establishes and U-CAPS requires (Prog is opaque in those two units: link by identical contract text); what stays assumed of it: fewer than 2^63 save slots (A6) and fewer than 2^61 groups (T-parser-shape); bounded cross-check: replay family progwf evaluates prog_wf on real compiled programs",
                      "T-RA-search / T-RA-look: regex-automata's anchored search returns offsets in [ix, len] on char boundaries with paired slots; LookMatcher is total and the unicode word-boundary variants return Ok",
                      "the inner interpreter loop is verified with exec_allows_no_decreases_clause: termination of a non-failing instruction cycle is NOT proved"],
     ),
@@ -126,7 +126,7 @@ PROPS = {
                      "A3 (assume / precondition): iteration counters and the backtrack counter stay below 2^64 - 1 (backtrack_limit < usize::MAX)",
                      "A4 (assume in run, End): slots 0 and 1 have been set when End is reached",
                      "A5 (assume in run, Restore): the restored slot has been set",
-                     "prog_wf(prog): static well-formedness of the program (jump targets, slot indices, counter / position slot typing) is a PRECONDITION of run; U-COMPILE covers the functions that emit code; bounded support: replay family progwf evaluates prog_wf on real compiled programs",
+                     "prog_wf(prog): static well-formedness of the program (jump targets, slot indices, counter / position slot typing) is a PRECONDITION of run and the POSTCONDITION of compile proved in U-EMITWF (one text, progwf_spec.vrs); it travels through Regex::wf, which U-NEW establishes and U-CAPS requires (Prog is opaque in those two units: link by identical contract text); what stays assumed of it: fewer than 2^63 save slots (A6) and fewer than 2^61 groups (T-parser-shape); bounded cross-check: replay family progwf evaluates prog_wf on real compiled programs",
                      "T-RA-search / T-RA-look: regex-automata's anchored search returns offsets in [ix, len] on char boundaries with paired slots; LookMatcher is total and the unicode word-boundary variants return Ok",
                      "the inner interpreter loop is verified with exec_allows_no_decreases_clause: termination of a non-failing instruction cycle is NOT proved"],
         bounded_families=['progwf'],
@@ -143,7 +143,7 @@ PROPS = {
                      "A3 (assume / precondition): iteration counters and the backtrack counter stay below 2^64 - 1 (backtrack_limit < usize::MAX)",
                      "A4 (assume in run, End): slots 0 and 1 have been set when End is reached",
                      "A5 (assume in run, Restore): the restored slot has been set",
-                     "prog_wf(prog): static well-formedness of the program (jump targets, slot indices, counter / position slot typing) is a PRECONDITION of run; U-COMPILE covers the functions that emit code; bounded support: replay family progwf evaluates prog_wf on real compiled programs",
+                     "prog_wf(prog): static well-formedness of the program (jump targets, slot indices, counter / position slot typing) is a PRECONDITION of run and the POSTCONDITION of compile proved in U-EMITWF (one text, progwf_spec.vrs); it travels through Regex::wf, which U-NEW establishes and U-CAPS requires (Prog is opaque in those two units: link by identical contract text); what stays assumed of it: fewer than 2^63 save slots (A6) and fewer than 2^61 groups (T-parser-shape); bounded cross-check: replay family progwf evaluates prog_wf on real compiled programs",
                      "T-RA-search / T-RA-look: regex-automata's anchored search returns offsets in [ix, len] on char boundaries with paired slots; LookMatcher is total and the unicode word-boundary variants return Ok",
                      "the inner interpreter loop is verified with exec_allows_no_decreases_clause: termination of a non-failing instruction cycle is NOT proved"],
         bounded_families=['refsem', 'progwf'],
@@ -158,7 +158,7 @@ PROPS = {
                      "A3 (assume / precondition): iteration counters and the backtrack counter stay below 2^64 - 1 (backtrack_limit < usize::MAX)",
                      "A4 (assume in run, End): slots 0 and 1 have been set when End is reached",
                      "A5 (assume in run, Restore): the restored slot has been set",
-                     "prog_wf(prog): static well-formedness of the program (jump targets, slot indices, counter / position slot typing) is a PRECONDITION of run; U-COMPILE covers the functions that emit code; bounded support: replay family progwf evaluates prog_wf on real compiled programs",
+                     "prog_wf(prog): static well-formedness of the program (jump targets, slot indices, counter / position slot typing) is a PRECONDITION of run and the POSTCONDITION of compile proved in U-EMITWF (one text, progwf_spec.vrs); it travels through Regex::wf, which U-NEW establishes and U-CAPS requires (Prog is opaque in those two units: link by identical contract text); what stays assumed of it: fewer than 2^63 save slots (A6) and fewer than 2^61 groups (T-parser-shape); bounded cross-check: replay family progwf evaluates prog_wf on real compiled programs",
                      "T-RA-search / T-RA-look: regex-automata's anchored search returns offsets in [ix, len] on char boundaries with paired slots; LookMatcher is total and the unicode word-boundary variants return Ok",
                      "the inner interpreter loop is verified with exec_allows_no_decreases_clause: termination of a non-failing instruction cycle is NOT proved"],
         bounded_families=['refsem'],
@@ -174,7 +174,7 @@ PROPS = {
                      "A3 (assume / precondition): iteration counters and the backtrack counter stay below 2^64 - 1 (backtrack_limit < usize::MAX)",
                      "A4 (assume in run, End): slots 0 and 1 have been set when End is reached",
                      "A5 (assume in run, Restore): the restored slot has been set",
-                     "prog_wf(prog): static well-formedness of the program (jump targets, slot indices, counter / position slot typing) is a PRECONDITION of run; U-COMPILE covers the functions that emit code; bounded support: replay family progwf evaluates prog_wf on real compiled programs",
+                     "prog_wf(prog): static well-formedness of the program (jump targets, slot indices, counter / position slot typing) is a PRECONDITION of run and the POSTCONDITION of compile proved in U-EMITWF (one text, progwf_spec.vrs); it travels through Regex::wf, which U-NEW establishes and U-CAPS requires (Prog is opaque in those two units: link by identical contract text); what stays assumed of it: fewer than 2^63 save slots (A6) and fewer than 2^61 groups (T-parser-shape); bounded cross-check: replay family progwf evaluates prog_wf on real compiled programs",
                      "T-RA-search / T-RA-look: regex-automata's anchored search returns offsets in [ix, len] on char boundaries with paired slots; LookMatcher is total and the unicode word-boundary variants return Ok",
                      "the inner interpreter loop is verified with exec_allows_no_decreases_clause: termination of a non-failing instruction cycle is NOT proved"],
         bounded_families=['refsem'],
